@@ -170,7 +170,7 @@ let new_gate () = { exists = false; approved = false; inflight = false; created 
                     pend_q = false; pend_s = false; pend_v = false; inc = -1; queued = false; ll = false; ll_img = false;
                     args = (N0, None, None, None, None); rq = None }
 
-let parse_cfg_b toks =
+let parse_cfg_b ?(starts = fun (_ : string) -> 63) toks =
   let pools = ref [] and groups = ref [] and sess = ref [] and queue = ref false in
   let rec go = function
     | "V" :: m :: r -> queue := (m = "queue"); go r
@@ -190,9 +190,10 @@ let parse_cfg_b toks =
   go toks;
   let ss = List.concat (List.rev_map (fun (sid, gid, mac) ->
       let (p4, p6) = try List.assoc gid !groups with Not_found -> (None, None) in
-      (* one model session per incarnation of a declared subscriber; a history of n events starts at most n of them *)
+      (* one model session per incarnation of a declared subscriber: at most one per event that can start a session
+         (DISCOVER / REQUEST / SOLICIT of that subscriber), counted from the case itself - no fixed bound *)
       List.map (fun i -> new_sess (n_of_int (int_of_string sid + 100 * i)) false p4 p6 (nd mac))
-        (List.init 64 (fun i -> i))) !sess) in
+        (List.init (starts sid + 1) (fun i -> i))) !sess) in
   (init_state (List.rev !pools) ss, !queue, List.rev_map (fun (sid, _, _) -> sid) !sess)
 
 let find_model_sess (st : state) sid = List.find_opt (fun s -> s.s_id = sid) st.st_sess
@@ -256,7 +257,9 @@ let run_case_b variant line isegs =
   let monitor_on = (variant = repaired) in
   let parts = split_segs_ref line in
   let cfg = tokens (List.hd parts) in
-  let (st0, queue, declared) = parse_cfg_b (List.tl cfg) in
+  let starts k = List.length (List.filter (fun o -> match tokens o with
+      | t :: k' :: _ -> (t = "BD" || t = "BQ" || t = "BS") && k' = k | _ -> false) (List.tl parts)) in
+  let (st0, queue, declared) = parse_cfg_b ~starts (List.tl cfg) in
   if not (cfg_valid st0.st_reg.pools) then "rejected-config" else
   let gates : (string, gate) Hashtbl.t = Hashtbl.create 8 in
   let gate k = match Hashtbl.find_opt gates k with Some g -> g | None -> let g = new_gate () in Hashtbl.add gates k g; g in
